@@ -953,11 +953,14 @@ pub mod vh1 {
         pub read_step: usize,
         /// drop the response sink right after `eof()` instead of flushing it first
         pub drop_sink_after_eof: bool,
+        /// the client keeps its sending side open until it has seen the end of the response (the
+        /// peer finishes first); otherwise it half-closes right after its last chunk
+        pub client_closes_last: bool,
     }
 
     impl Default for ClientOpts {
         fn default() -> Self {
-            ClientOpts { capacity: 1 << 20, read_step: 0, drop_sink_after_eof: false }
+            ClientOpts { capacity: 1 << 20, read_step: 0, drop_sink_after_eof: false, client_closes_last: false }
         }
     }
 
@@ -979,6 +982,8 @@ pub mod vh1 {
         let (client, server) = tokio::io::duplex(opts.capacity.max(1));
         let (mut cr, mut cw) = tokio::io::split(client);
         let mut codec = http1_codec::Http1Codec::new(settings, Transport(server), crate::log_utils::IdChain::empty());
+        let (read_done_tx, read_done_rx) = tokio::sync::oneshot::channel::<()>();
+        let closes_last = opts.client_closes_last;
         let writer = tokio::spawn(async move {
             for c in chunks {
                 if cw.write_all(&c).await.is_err() {
@@ -989,27 +994,32 @@ pub mod vh1 {
                     tokio::task::yield_now().await;
                 }
             }
+            if closes_last {
+                let _ = tokio::time::timeout(std::time::Duration::from_secs(6), read_done_rx).await;
+            }
             let _ = cw.shutdown().await;
         });
         let read_step = opts.read_step;
         let reader = tokio::spawn(async move {
             use tokio::io::AsyncReadExt;
             let mut all = vec![];
-            if read_step == 0 {
-                let eof = cr.read_to_end(&mut all).await.is_ok();
-                return (all, eof);
-            }
-            let mut buf = vec![0u8; read_step];
-            loop {
-                match cr.read(&mut buf).await {
-                    Ok(0) => return (all, true),
-                    Ok(n) => all.extend_from_slice(&buf[..n]),
-                    Err(_) => return (all, false),
+            let eof = if read_step == 0 {
+                cr.read_to_end(&mut all).await.is_ok()
+            } else {
+                let mut buf = vec![0u8; read_step];
+                loop {
+                    match cr.read(&mut buf).await {
+                        Ok(0) => break true,
+                        Ok(n) => all.extend_from_slice(&buf[..n]),
+                        Err(_) => break false,
+                    }
+                    for _ in 0..8 {
+                        tokio::task::yield_now().await;
+                    }
                 }
-                for _ in 0..8 {
-                    tokio::task::yield_now().await;
-                }
-            }
+            };
+            let _ = read_done_tx.send(());
+            (all, eof)
         });
         let mut obs = H1Obs::default();
         match codec.listen().await {
@@ -1046,6 +1056,15 @@ pub mod vh1 {
                     }
                 } else {
                     drop(resp);
+                }
+                if opts.client_closes_last {
+                    // the peer finishes first: end of stream towards the client while it still listens
+                    if let Some(mut s) = sink.take() {
+                        let _ = s.eof();
+                        if !opts.drop_sink_after_eof {
+                            let _ = s.flush().await;
+                        }
+                    }
                 }
                 loop {
                     match source.read().await {
